@@ -7,9 +7,15 @@ Theorems about the model `AsynqModel.Futures` for every future kind of the model
 self-completing provider, ConstFuture, ErrorFuture, AsyncTask with a non-blocking body) and every history of operations.
 Batches, batch items and blocking tasks are not kinds of this model.
 
-The hypothesis of `C10_spec_holds` (`statsOk`: collect_perf_stats() can run for the task) is a fact the harness probes
-on the tree under test (true on the current tree); `C10_statsOk_needed` shows that it cannot be dropped.  (Before the fix of
-futures.py `_computed` - safe_repr - the theorem needed a second hypothesis: no subscriber raises an un-printable exception.)
+Hypotheses of `C10_spec_holds`:
+* `hstats` (`statsOk`: collect_perf_stats() can run for the task) is a fact the harness probes on the tree under test (true
+  on the current tree); `C10_statsOk_needed` shows that it cannot be dropped.
+* `hops` (`noWorseOps`: no subscriber raises an Exception `e` for which `qcore.safe_repr(e)` itself raises, i.e. `repr(e)`
+  raises an Exception whose `str()` raises) excludes the OPEN FINDING `subscriber-repr-error-escapes`: fix 591bc3e made
+  `FutureBase._computed` print `safe_repr(e)` instead of `repr(e)`, which swallows what `repr(e)` raises but not what
+  FORMATTING that exception raises (helpers.py:229-234, the `%s` sits in safe_repr's own except clause).  The model has the
+  code as it is (`subEscapes`), `C10_subscriber_repr_error_counterexample` exhibits the behaviour and shows that `hops`
+  cannot be dropped.
 -/
 namespace AsynqModel.Futures
 
@@ -119,8 +125,10 @@ theorem C10_subs_after_completion (f : Fut) (op : Op) (o : Outc)
 /-- handlers that do not touch the handler list (well-behaved, raising, re-entrant) all stay subscribed
     (the hypothesis is needed: a one-shot handler is gone afterwards, example below) -/
 theorem C10_passive_subs_stay (subs : List Sub)
-    (h : ∀ s ∈ subs, s.2 = .good ∨ s.2 = .raising ∨ s.2 = .raisingBad ∨ ∃ o, s.2 = .reenter o) : afterNotify subs = subs := by
-  have key : ∀ (l acc : List Sub), (∀ s ∈ l, s.2 = .good ∨ s.2 = .raising ∨ s.2 = .raisingBad ∨ ∃ o, s.2 = .reenter o) →
+    (h : ∀ s ∈ subs, s.2 = .good ∨ s.2 = .raising ∨ s.2 = .raisingBad ∨ s.2 = .raisingWorse ∨ ∃ o, s.2 = .reenter o) :
+    afterNotify subs = subs := by
+  have key : ∀ (l acc : List Sub),
+      (∀ s ∈ l, s.2 = .good ∨ s.2 = .raising ∨ s.2 = .raisingBad ∨ s.2 = .raisingWorse ∨ ∃ o, s.2 = .reenter o) →
       l.foldl applyBeh acc = acc := by
     intro l
     induction l with
@@ -129,7 +137,7 @@ theorem C10_passive_subs_stay (subs : List Sub)
       intro acc hl
       have hs := hl s (by simp)
       have : applyBeh acc s = acc := by
-        rcases hs with h | h | h | ⟨o, h⟩ <;> simp [applyBeh, h]
+        rcases hs with h | h | h | h | ⟨o, h⟩ <;> simp [applyBeh, h]
       simp only [List.foldl_cons, this]
       exact ih acc (fun t ht => hl t (by simp [ht]))
   exact key subs subs h
@@ -233,16 +241,41 @@ example : ¬ (finalState (init (.lazyOk 1)) [.value, .reset, .value]).runs ≤ 0
 
 /-! ### the observer -/
 
-/-- **C10 as a whole**: for every kind of future, every creation-time configuration in which the perf-stats step of a
-    task can run (`hstats`; a fact of the tree under test, probed by the harness, true today) and every history of
-    operations, the observations of the model are accepted by the observer `spec` - the same Boolean function the check
-    evaluates on the observations of the real implementation.  `hstats` cannot be dropped: `C10_statsOk_needed`. -/
+/-- **C10 as a whole** (partial: `hops` excludes the open finding): for every kind of future, every creation-time
+    configuration in which the perf-stats step of a task can run (`hstats`; a fact of the tree under test, probed by the
+    harness, true today) and every history of operations in which no subscriber raises an exception that defeats
+    `safe_repr` (`hops`), the observations of the model are accepted by the observer `spec` - the same Boolean function the
+    check evaluates on the observations of the real implementation.  Neither hypothesis can be dropped:
+    `C10_statsOk_needed`, `C10_subscriber_repr_error_counterexample`. -/
 theorem C10_spec_holds (k : Kind) (c : Cfg) (ops : List Op)
-    (hstats : k.isTask = true → c.statsOk = true) : spec k (run (init k c) ops) = true := by
-  obtain ⟨w', h⟩ := watchRun_ok k ops (watchInit k) (init k c) (rel_init k c hstats)
+    (hstats : k.isTask = true → c.statsOk = true) (hops : noWorseOps ops = true) :
+    spec k (run (init k c) ops) = true := by
+  obtain ⟨w', h⟩ := watchRun_ok k ops (watchInit k) (init k c) (rel_init k c hstats) hops
   simp [spec, h]
 
-/-- the hypothesis `hstats` of `C10_spec_holds_partial` cannot be dropped: a task whose perf-stats step cannot run,
+/-- the OPEN FINDING `subscriber-repr-error-escapes` in the model (= the code as it is, correspondence-checked): a
+    subscriber raises an Exception whose `repr()` raises an Exception whose `str()` raises.  `set_value(2)` on an
+    uncomputed `Future` then RAISES what `str()` raised although the outcome is stored and both subscribers were notified
+    and read it; the computing `value()` of `Future(lambda: 1)` raises FutureIsAlreadyComputed while the future holds 1
+    (Future._compute's `except Exception: self.set_error(..)`); the observer rejects both with the finding's clause, so
+    `hops` of `C10_spec_holds` cannot be dropped.  Only the FIRST exception of a round counts (`safe_trigger` drops the
+    later ones): behind a subscriber raising a printable exception the same subscriber is harmless. -/
+theorem C10_subscriber_repr_error_counterexample :
+    (run (init (.lazyOk 1)) [.subscribe 1 .raisingWorse, .subscribe 2 .good, .setValue 2]).map
+        (fun ob => (ob.res, ob.cbs.map (fun c => (c.sub, c.seen)), ob.after))
+      = [(.unit, [], none), (.unit, [], none),
+         (.raised .subRepr, [(1, some (.val 2)), (2, some (.val 2))], some (.val 2))] ∧
+    specClause (.lazyOk 1) (run (init (.lazyOk 1)) [.subscribe 1 .raisingWorse, .subscribe 2 .good, .setValue 2])
+      = "subscriber-repr-error-escapes@setValue" ∧
+    ((run (init (.lazyOk 1)) [.subscribe 1 .raisingWorse, .value]).map (fun ob => (ob.res, ob.after)))
+      = [(.unit, none), (.raised .alreadyComputed, some (.val 1))] ∧
+    spec (.lazyOk 1) (run (init (.lazyOk 1)) [.subscribe 1 .raisingWorse, .value]) = false ∧
+    spec (.taskErr 1) (run (init (.taskErr 1)) [.subscribe 1 .raisingWorse, .error]) = false ∧
+    spec (.lazyOk 1) (run (init (.lazyOk 1)) [.subscribe 1 .raising, .subscribe 2 .raisingWorse, .setValue 2]) = true ∧
+    spec (.lazyOk 1) (run (init (.lazyOk 1)) [.subscribe 1 .raisingBad, .subscribe 2 .good, .setValue 2]) = true := by
+  decide
+
+/-- the hypothesis `hstats` of `C10_spec_holds` cannot be dropped: a task whose perf-stats step cannot run,
     completed under COLLECT_PERF_STATS, hands the exception of that step to the completing `value()` (the model of the
     trees before 9ee915e / f0f10a3); the observer rejects that answer -/
 theorem C10_statsOk_needed :
@@ -327,10 +360,35 @@ example : (watchStep (.lazyOk 1) { known := some (.val 1), subs := [], runs := 1
 
 /-! ### the exception channels of a completion: subscribers, perf-stats step -/
 
-/-- **printable exceptions are swallowed**: a round in which no subscriber raises an un-printable exception lets nothing
-    escape - however many subscribers raise, fail to unsubscribe, ... -/
-theorem C10_printable_exceptions_swallowed (subs : List Sub) (h : noBad subs = true) : subEscapes subs = false :=
-  subEscapes_noBad subs h
+/-- **exceptions that `safe_repr` can print are swallowed**: a round in which no subscriber raises an exception that
+    defeats `safe_repr` (`noWorse`) lets nothing escape from `_computed` - however many subscribers raise (printable
+    exceptions or ones whose `repr()` raises), fail to unsubscribe, edit the handler list ...  (Induction over the walk
+    `firstRaise` of the snapshot with the changing live list; `subEscapes` is NOT constant: the counterexample theorem.) -/
+theorem C10_printable_exceptions_swallowed (subs : List Sub) (h : noWorse subs = true) : subEscapes subs = false :=
+  subEscapes_noWorse subs h
+
+/-- what decides the escape is the FIRST exception of the round only: if the first subscriber that raises at all raises
+    an exception that defeats `safe_repr`, the exception escapes whatever the others do; if it raises a printable one (or
+    one whose `repr()` merely raises), nothing escapes whatever the later ones raise -/
+theorem C10_first_exception_decides (pre post : List Sub) (s : Sub)
+    (hpre : ∀ t ∈ pre, t.2 = .good ∨ ∃ o, t.2 = .reenter o) :
+    (s.2 = .raisingWorse → subEscapes (pre ++ s :: post) = true) ∧
+    ((s.2 = .raising ∨ s.2 = .raisingBad) → subEscapes (pre ++ s :: post) = false) := by
+  have key : ∀ (l live : List Sub), (∀ t ∈ l, t.2 = .good ∨ ∃ o, t.2 = .reenter o) →
+      firstRaise live (l ++ s :: post) = firstRaise live (s :: post) := by
+    intro l
+    induction l with
+    | nil => intros; rfl
+    | cons t ts ih =>
+      intro live hl
+      have ht := hl t (by simp)
+      have hts : ∀ u ∈ ts, u.2 = .good ∨ ∃ o, u.2 = .reenter o := fun u hu => hl u (by simp [hu])
+      rcases ht with ht | ⟨o, ht⟩ <;> simp [firstRaise, behRaises, applyBeh, ht, ih _ hts]
+  constructor
+  · intro hs
+    simp [subEscapes, key pre _ hpre, firstRaise, behRaises, hs]
+  · intro hs
+    rcases hs with hs | hs <;> simp [subEscapes, key pre _ hpre, firstRaise, behRaises, hs]
 
 /-- the plain answer of the operation that completes a future of kind `k` with `o` -/
 def plainRes (k : Kind) (op : Op) (o : Outc) : Res :=
@@ -347,7 +405,7 @@ def completerRes (f : Fut) (op : Op) (o : Outc) : Res :=
   else plainRes f.kind op o
 
 /-- **the completer's answer**, from ANY uncomputed state and for whichever operation completes the future: the
-    exception of `repr(e)` for the first exception `e` a subscriber raised, if that cannot be printed (`subEscapes`; a
+    exception that leaves `safe_repr(e)` for the first exception `e` a subscriber raised, if there is one (`subEscapes`; a
     `Future` with a returning provider turns it into FutureIsAlreadyComputed); otherwise the exception of the perf-stats
     step if that cannot run (`hookFails`); otherwise the plain answer.  In ALL three cases the outcome is stored and every
     subscriber of the snapshot is notified once, reading it. -/
@@ -368,15 +426,15 @@ theorem C10_completer_result (f : Fut) (op : Op) (o : Outc)
       readValue, readError] <;>
     (try (cases o <;> simp_all [hookFails, Kind.isTask])))
 
-/-- **"even if another subscriber raises an Exception"**, for printable exceptions: if no subscriber of the round raises
-    an un-printable exception and the perf-stats step can run, the completer gets the plain answer and everybody is notified
-    once, reading the outcome (both hypotheses are needed: `C10_subscriber_exception_escapes`, the example after
-    `C10_hook_failure_after_notification`) -/
+/-- **"even if another subscriber raises an Exception"**: if no subscriber of the round raises an exception that
+    defeats `safe_repr` and the perf-stats step can run, the completer gets the plain answer and everybody is notified
+    once, reading the outcome (both hypotheses are needed: `C10_subscriber_repr_error_counterexample`, the first example
+    of the section "non-vacuity and rejection examples") -/
 theorem C10_raising_subscribers_swallowed (f : Fut) (op : Op) (o : Outc)
-    (h0 : f.out = none) (h1 : (step f op).1.out = some o) (hnb : noBad f.subs = true) (hh : hookFails f = false) :
+    (h0 : f.out = none) (h1 : (step f op).1.out = some o) (hnb : noWorse f.subs = true) (hh : hookFails f = false) :
     (step f op).2.1 = plainRes f.kind op o ∧ (step f op).2.2 = f.subs.map (notif o) := by
   have h := C10_completer_result f op o h0 h1
-  simp only [completerRes, subEscapes_noBad f.subs hnb, hh] at h
+  simp only [completerRes, subEscapes_noWorse f.subs hnb, hh] at h
   simpa using h
 
 /-! ### debug options switched while the future is in flight -/
@@ -400,8 +458,8 @@ theorem C10_quiet_ops (f : Fut) (op : Op) (h : op.quiet = true) :
     exception of the step reaches the completer exactly when the future is such an AsyncTask and COLLECT_PERF_STATS is on
     at that moment (`hookFails`) - and in BOTH cases the outcome is stored and every subscriber of the snapshot is
     notified once, reading it.  (AsyncTask._computed runs the step inside `try: ... finally: FutureBase._computed(self)`.)
-    `hesc`: no subscriber exception escapes from the finally clause (it would replace the exception of the step, example
-    below). -/
+    `hesc`: no subscriber exception escapes from the finally clause (it would replace the exception of the step: example
+    after the theorem). -/
 theorem C10_hook_failure_after_notification (f : Fut) (op : Op) (o : Outc)
     (h0 : f.out = none) (h1 : (step f op).1.out = some o) (hesc : subEscapes f.subs = false) :
     ((step f op).2.1 = .raised .hook ↔ hookFails f = true) ∧ (step f op).2.2 = f.subs.map (notif o) := by
@@ -410,6 +468,10 @@ theorem C10_hook_failure_after_notification (f : Fut) (op : Op) (o : Outc)
   rw [h.1]
   cases hf : hookFails f <;> simp [completerRes, hesc, hf, plainRes]
   (repeat' split) <;> simp_all [readValue, readError] <;> (repeat' split) <;> simp_all
+
+/-- necessity of `hesc`: what escapes from the finally clause (FutureBase._computed) replaces the exception of the step -/
+example : (step { (init (.taskOk 1) { statsOk := false, perf := true }) with subs := [(1, .raisingWorse)] } .value).2.1
+    = .raised .subRepr := by decide
 
 /-- only `option COLLECT_PERF_STATS` changes whether the step will fail; whether it CAN run is fixed at creation -/
 theorem C10_hook_state (f : Fut) (op : Op) :
